@@ -11,50 +11,52 @@ use vh_lite::{read_cases, drive, drive_group, quiet_panics, Out};
 mod tc_right__ser;
 mod tc_left__to;
 mod tc_left__srcto;
-mod tc_left__ren;
-mod tc_nonlin__to;
-mod tc_nonlin__strpar;
-mod mutual__gen;
-mod mutual__runpar;
-mod mutual__strpar;
-mod scc_chain__ren;
-mod consts__ser;
-mod repeated__ren;
-mod three_dyn__to;
-mod three_dyn__strpar;
-mod conds__mrt;
-mod conds__init;
-mod expr_args__par;
-mod multi_head__par;
-mod facts__ser;
-mod facts__src2;
+mod tc_left__perm1;
+mod tc_nonlin__par;
+mod tc_nonlin__str;
+mod mutual__run;
+mod mutual__redecl;
+mod mutual__ren;
+mod scc_chain__to;
+mod scc_chain__strpar;
+mod repeated__par;
+mod repeated__strpar;
+mod three_dyn__ren;
+mod conds__ser;
+mod conds__src2;
+mod conds__srcpar;
+mod count_up__ser;
+mod multi_head__to;
+mod facts__pari;
+mod facts__srcred;
 mod facts__perm2;
 mod opt_cols__pari;
 mod opt_cols__srcred;
-mod same_gen__ser;
-mod same_gen__permpar;
-mod not_reorderable__topar;
-mod pre_join_rec__to;
-mod two_inputs__pari;
-mod two_inputs__src2;
-mod two_inputs__perm2;
-mod wild__pari;
-mod ternary__str;
-mod bound_mix__ren;
-mod join_chain__perm1;
-mod cond_simple_join__par;
-mod zero_arity__par;
-mod lag_right__to;
-mod lag_right__strpar;
-mod lag_three__pari;
-mod lag_mid__ren;
-mod lag_late_delta__to;
-mod multi_head_rec__exppar;
-mod sp_dual__gen;
-mod sp_dual__runpar;
-mod sp_weighted__pari;
-mod set_reach__ser;
-mod set_reach__src0;
+mod cartesian__par;
+mod same_gen__perm2;
+mod not_reorderable__pari;
+mod pre_join_rec__par;
+mod two_inputs__ser;
+mod two_inputs__src0;
+mod two_inputs__runhead;
+mod two_inputs__u64;
+mod ternary__perm1;
+mod bound_mix__par;
+mod bound_mix__strpar;
+mod join_chain__str;
+mod reach__pari;
+mod self_join3__pari;
+mod lag_right__ren;
+mod lag_left__to;
+mod lag_mid__par;
+mod lag_mid__strpar;
+mod multi_head_rec__pari;
+mod sp_dual__to;
+mod sp_dual__srcto;
+mod sp_dual__perm1;
+mod sp_weighted__topar;
+mod set_reach__pari;
+mod set_reach__src2;
 mod set_reach__srcpar;
 mod cp__pari;
 mod lat_tree__pari;
@@ -63,105 +65,108 @@ mod lat_multi_improve__par;
 mod lat_pre_join__topar;
 mod lat_input__par;
 mod lat_input__src1;
-mod count_paths__ser;
-mod count_paths__src0;
-mod count_paths__srcpar;
-mod neg_basic__gen;
-mod neg_basic__runpar;
-mod agg_minmaxsum__ser;
-mod agg_lattice__ser;
-mod neg_rec_after__ser;
-mod agg_empty__ser;
-mod agg_empty_rel__to;
-mod agg_pre_join__par;
-mod disj__mrt;
-mod disj__init;
+mod lat_input__runpar;
+mod count_paths__mrt;
+mod count_paths__init;
+mod neg_basic__to;
+mod neg_basic__srcto;
+mod neg_basic__perm1;
+mod agg_minmaxsum__pari;
+mod agg_lattice__pari;
+mod neg_rec_after__pari;
+mod agg_empty__pari;
+mod agg_const_args__ser;
+mod disj__ser;
+mod disj__src0;
+mod disj__runhead;
 mod disj__exppar;
 mod pat_args__pari;
 mod multi_head_disj__ser;
 mod neg_in_disj__exp;
 mod mac_basic__mrt;
 mod mac_basic__init;
-mod mac_capture__exp;
-mod mac_gensym_disj__par;
-mod mac_local_names__exppar;
-mod mac_disj__pari;
-mod stress_set__pari;
-mod rnd_core_02__par;
-mod rnd_core_05__ser;
-mod rnd_core_07__pari;
-mod rnd_core_10__par;
-mod rnd_core_13__ser;
-mod rnd_core_15__pari;
-mod rnd_core_18__par;
-mod rnd_core_21__ser;
-mod rnd_core_23__pari;
-mod rnd_core_26__par;
-mod rnd_core_29__ser;
-mod rnd_agg_01__pari;
-mod rnd_agg_04__par;
-mod rnd_agg_07__ser;
-mod rnd_agg_09__pari;
-mod rnd_agg_12__par;
-mod rnd_agg_15__ser;
-mod rnd_prec_02__ser;
-mod rnd_prec_03__to;
-mod rnd_prec_05__par;
-mod rnd_prec_06__topar;
-mod rnd_prec_08__pari;
-mod rnd_prea_02__pari;
-mod rnd_prea_05__par;
-mod rnd_prea_08__ser;
+mod mac_capture__par;
+mod mac_nested__exppar;
+mod mac_local_names__pari;
+mod mac_disj__ser;
+mod stress_set__ser;
+mod rnd_core_01__pari;
+mod rnd_core_04__par;
+mod rnd_core_07__ser;
+mod rnd_core_09__pari;
+mod rnd_core_12__par;
+mod rnd_core_15__ser;
+mod rnd_core_17__pari;
+mod rnd_core_20__par;
+mod rnd_core_23__ser;
+mod rnd_core_25__pari;
+mod rnd_core_28__par;
+mod rnd_agg_01__ser;
+mod rnd_agg_03__pari;
+mod rnd_agg_06__par;
+mod rnd_agg_09__ser;
+mod rnd_agg_11__pari;
+mod rnd_agg_14__par;
+mod rnd_prec_01__to;
+mod rnd_prec_03__par;
+mod rnd_prec_04__topar;
+mod rnd_prec_06__pari;
+mod rnd_prec_08__ser;
+mod rnd_prea_02__ser;
+mod rnd_prea_04__pari;
+mod rnd_prea_07__par;
 
 fn lookup(name: &str) -> fn() -> Box<dyn Driven> {
    match name {
       "tc_right__ser" => tc_right__ser::make,
       "tc_left__to" => tc_left__to::make,
       "tc_left__srcto" => tc_left__srcto::make,
-      "tc_left__ren" => tc_left__ren::make,
-      "tc_nonlin__to" => tc_nonlin__to::make,
-      "tc_nonlin__strpar" => tc_nonlin__strpar::make,
-      "mutual__gen" => mutual__gen::make,
-      "mutual__runpar" => mutual__runpar::make,
-      "mutual__strpar" => mutual__strpar::make,
-      "scc_chain__ren" => scc_chain__ren::make,
-      "consts__ser" => consts__ser::make,
-      "repeated__ren" => repeated__ren::make,
-      "three_dyn__to" => three_dyn__to::make,
-      "three_dyn__strpar" => three_dyn__strpar::make,
-      "conds__mrt" => conds__mrt::make,
-      "conds__init" => conds__init::make,
-      "expr_args__par" => expr_args__par::make,
-      "multi_head__par" => multi_head__par::make,
-      "facts__ser" => facts__ser::make,
-      "facts__src2" => facts__src2::make,
+      "tc_left__perm1" => tc_left__perm1::make,
+      "tc_nonlin__par" => tc_nonlin__par::make,
+      "tc_nonlin__str" => tc_nonlin__str::make,
+      "mutual__run" => mutual__run::make,
+      "mutual__redecl" => mutual__redecl::make,
+      "mutual__ren" => mutual__ren::make,
+      "scc_chain__to" => scc_chain__to::make,
+      "scc_chain__strpar" => scc_chain__strpar::make,
+      "repeated__par" => repeated__par::make,
+      "repeated__strpar" => repeated__strpar::make,
+      "three_dyn__ren" => three_dyn__ren::make,
+      "conds__ser" => conds__ser::make,
+      "conds__src2" => conds__src2::make,
+      "conds__srcpar" => conds__srcpar::make,
+      "count_up__ser" => count_up__ser::make,
+      "multi_head__to" => multi_head__to::make,
+      "facts__pari" => facts__pari::make,
+      "facts__srcred" => facts__srcred::make,
       "facts__perm2" => facts__perm2::make,
       "opt_cols__pari" => opt_cols__pari::make,
       "opt_cols__srcred" => opt_cols__srcred::make,
-      "same_gen__ser" => same_gen__ser::make,
-      "same_gen__permpar" => same_gen__permpar::make,
-      "not_reorderable__topar" => not_reorderable__topar::make,
-      "pre_join_rec__to" => pre_join_rec__to::make,
-      "two_inputs__pari" => two_inputs__pari::make,
-      "two_inputs__src2" => two_inputs__src2::make,
-      "two_inputs__perm2" => two_inputs__perm2::make,
-      "wild__pari" => wild__pari::make,
-      "ternary__str" => ternary__str::make,
-      "bound_mix__ren" => bound_mix__ren::make,
-      "join_chain__perm1" => join_chain__perm1::make,
-      "cond_simple_join__par" => cond_simple_join__par::make,
-      "zero_arity__par" => zero_arity__par::make,
-      "lag_right__to" => lag_right__to::make,
-      "lag_right__strpar" => lag_right__strpar::make,
-      "lag_three__pari" => lag_three__pari::make,
-      "lag_mid__ren" => lag_mid__ren::make,
-      "lag_late_delta__to" => lag_late_delta__to::make,
-      "multi_head_rec__exppar" => multi_head_rec__exppar::make,
-      "sp_dual__gen" => sp_dual__gen::make,
-      "sp_dual__runpar" => sp_dual__runpar::make,
-      "sp_weighted__pari" => sp_weighted__pari::make,
-      "set_reach__ser" => set_reach__ser::make,
-      "set_reach__src0" => set_reach__src0::make,
+      "cartesian__par" => cartesian__par::make,
+      "same_gen__perm2" => same_gen__perm2::make,
+      "not_reorderable__pari" => not_reorderable__pari::make,
+      "pre_join_rec__par" => pre_join_rec__par::make,
+      "two_inputs__ser" => two_inputs__ser::make,
+      "two_inputs__src0" => two_inputs__src0::make,
+      "two_inputs__runhead" => two_inputs__runhead::make,
+      "two_inputs__u64" => two_inputs__u64::make,
+      "ternary__perm1" => ternary__perm1::make,
+      "bound_mix__par" => bound_mix__par::make,
+      "bound_mix__strpar" => bound_mix__strpar::make,
+      "join_chain__str" => join_chain__str::make,
+      "reach__pari" => reach__pari::make,
+      "self_join3__pari" => self_join3__pari::make,
+      "lag_right__ren" => lag_right__ren::make,
+      "lag_left__to" => lag_left__to::make,
+      "lag_mid__par" => lag_mid__par::make,
+      "lag_mid__strpar" => lag_mid__strpar::make,
+      "multi_head_rec__pari" => multi_head_rec__pari::make,
+      "sp_dual__to" => sp_dual__to::make,
+      "sp_dual__srcto" => sp_dual__srcto::make,
+      "sp_dual__perm1" => sp_dual__perm1::make,
+      "sp_weighted__topar" => sp_weighted__topar::make,
+      "set_reach__pari" => set_reach__pari::make,
+      "set_reach__src2" => set_reach__src2::make,
       "set_reach__srcpar" => set_reach__srcpar::make,
       "cp__pari" => cp__pari::make,
       "lat_tree__pari" => lat_tree__pari::make,
@@ -170,55 +175,56 @@ fn lookup(name: &str) -> fn() -> Box<dyn Driven> {
       "lat_pre_join__topar" => lat_pre_join__topar::make,
       "lat_input__par" => lat_input__par::make,
       "lat_input__src1" => lat_input__src1::make,
-      "count_paths__ser" => count_paths__ser::make,
-      "count_paths__src0" => count_paths__src0::make,
-      "count_paths__srcpar" => count_paths__srcpar::make,
-      "neg_basic__gen" => neg_basic__gen::make,
-      "neg_basic__runpar" => neg_basic__runpar::make,
-      "agg_minmaxsum__ser" => agg_minmaxsum__ser::make,
-      "agg_lattice__ser" => agg_lattice__ser::make,
-      "neg_rec_after__ser" => neg_rec_after__ser::make,
-      "agg_empty__ser" => agg_empty__ser::make,
-      "agg_empty_rel__to" => agg_empty_rel__to::make,
-      "agg_pre_join__par" => agg_pre_join__par::make,
-      "disj__mrt" => disj__mrt::make,
-      "disj__init" => disj__init::make,
+      "lat_input__runpar" => lat_input__runpar::make,
+      "count_paths__mrt" => count_paths__mrt::make,
+      "count_paths__init" => count_paths__init::make,
+      "neg_basic__to" => neg_basic__to::make,
+      "neg_basic__srcto" => neg_basic__srcto::make,
+      "neg_basic__perm1" => neg_basic__perm1::make,
+      "agg_minmaxsum__pari" => agg_minmaxsum__pari::make,
+      "agg_lattice__pari" => agg_lattice__pari::make,
+      "neg_rec_after__pari" => neg_rec_after__pari::make,
+      "agg_empty__pari" => agg_empty__pari::make,
+      "agg_const_args__ser" => agg_const_args__ser::make,
+      "disj__ser" => disj__ser::make,
+      "disj__src0" => disj__src0::make,
+      "disj__runhead" => disj__runhead::make,
       "disj__exppar" => disj__exppar::make,
       "pat_args__pari" => pat_args__pari::make,
       "multi_head_disj__ser" => multi_head_disj__ser::make,
       "neg_in_disj__exp" => neg_in_disj__exp::make,
       "mac_basic__mrt" => mac_basic__mrt::make,
       "mac_basic__init" => mac_basic__init::make,
-      "mac_capture__exp" => mac_capture__exp::make,
-      "mac_gensym_disj__par" => mac_gensym_disj__par::make,
-      "mac_local_names__exppar" => mac_local_names__exppar::make,
-      "mac_disj__pari" => mac_disj__pari::make,
-      "stress_set__pari" => stress_set__pari::make,
-      "rnd_core_02__par" => rnd_core_02__par::make,
-      "rnd_core_05__ser" => rnd_core_05__ser::make,
-      "rnd_core_07__pari" => rnd_core_07__pari::make,
-      "rnd_core_10__par" => rnd_core_10__par::make,
-      "rnd_core_13__ser" => rnd_core_13__ser::make,
-      "rnd_core_15__pari" => rnd_core_15__pari::make,
-      "rnd_core_18__par" => rnd_core_18__par::make,
-      "rnd_core_21__ser" => rnd_core_21__ser::make,
-      "rnd_core_23__pari" => rnd_core_23__pari::make,
-      "rnd_core_26__par" => rnd_core_26__par::make,
-      "rnd_core_29__ser" => rnd_core_29__ser::make,
-      "rnd_agg_01__pari" => rnd_agg_01__pari::make,
-      "rnd_agg_04__par" => rnd_agg_04__par::make,
-      "rnd_agg_07__ser" => rnd_agg_07__ser::make,
-      "rnd_agg_09__pari" => rnd_agg_09__pari::make,
-      "rnd_agg_12__par" => rnd_agg_12__par::make,
-      "rnd_agg_15__ser" => rnd_agg_15__ser::make,
-      "rnd_prec_02__ser" => rnd_prec_02__ser::make,
-      "rnd_prec_03__to" => rnd_prec_03__to::make,
-      "rnd_prec_05__par" => rnd_prec_05__par::make,
-      "rnd_prec_06__topar" => rnd_prec_06__topar::make,
-      "rnd_prec_08__pari" => rnd_prec_08__pari::make,
-      "rnd_prea_02__pari" => rnd_prea_02__pari::make,
-      "rnd_prea_05__par" => rnd_prea_05__par::make,
-      "rnd_prea_08__ser" => rnd_prea_08__ser::make,
+      "mac_capture__par" => mac_capture__par::make,
+      "mac_nested__exppar" => mac_nested__exppar::make,
+      "mac_local_names__pari" => mac_local_names__pari::make,
+      "mac_disj__ser" => mac_disj__ser::make,
+      "stress_set__ser" => stress_set__ser::make,
+      "rnd_core_01__pari" => rnd_core_01__pari::make,
+      "rnd_core_04__par" => rnd_core_04__par::make,
+      "rnd_core_07__ser" => rnd_core_07__ser::make,
+      "rnd_core_09__pari" => rnd_core_09__pari::make,
+      "rnd_core_12__par" => rnd_core_12__par::make,
+      "rnd_core_15__ser" => rnd_core_15__ser::make,
+      "rnd_core_17__pari" => rnd_core_17__pari::make,
+      "rnd_core_20__par" => rnd_core_20__par::make,
+      "rnd_core_23__ser" => rnd_core_23__ser::make,
+      "rnd_core_25__pari" => rnd_core_25__pari::make,
+      "rnd_core_28__par" => rnd_core_28__par::make,
+      "rnd_agg_01__ser" => rnd_agg_01__ser::make,
+      "rnd_agg_03__pari" => rnd_agg_03__pari::make,
+      "rnd_agg_06__par" => rnd_agg_06__par::make,
+      "rnd_agg_09__ser" => rnd_agg_09__ser::make,
+      "rnd_agg_11__pari" => rnd_agg_11__pari::make,
+      "rnd_agg_14__par" => rnd_agg_14__par::make,
+      "rnd_prec_01__to" => rnd_prec_01__to::make,
+      "rnd_prec_03__par" => rnd_prec_03__par::make,
+      "rnd_prec_04__topar" => rnd_prec_04__topar::make,
+      "rnd_prec_06__pari" => rnd_prec_06__pari::make,
+      "rnd_prec_08__ser" => rnd_prec_08__ser::make,
+      "rnd_prea_02__ser" => rnd_prea_02__ser::make,
+      "rnd_prea_04__pari" => rnd_prea_04__pari::make,
+      "rnd_prea_07__par" => rnd_prea_07__par::make,
       _ => panic!("no such program variant in this shard: {}", name),
    }
 }
